@@ -19,6 +19,22 @@ __attribute__((noinline)) void scrub_stack(uint8_t byte) {
     volatile uint8_t buf[48 * 1024];
     memset((void *)buf, byte, sizeof buf);
     __asm__ volatile("" ::: "memory");
+    // vector registers are caller-saved scratch: give them a fixed content too
+#if defined(__AVX512F__)
+    __asm__ volatile("vzeroall\n"
+        "vpxord %%zmm16,%%zmm16,%%zmm16\n vpxord %%zmm17,%%zmm17,%%zmm17\n vpxord %%zmm18,%%zmm18,%%zmm18\n vpxord %%zmm19,%%zmm19,%%zmm19\n"
+        "vpxord %%zmm20,%%zmm20,%%zmm20\n vpxord %%zmm21,%%zmm21,%%zmm21\n vpxord %%zmm22,%%zmm22,%%zmm22\n vpxord %%zmm23,%%zmm23,%%zmm23\n"
+        "vpxord %%zmm24,%%zmm24,%%zmm24\n vpxord %%zmm25,%%zmm25,%%zmm25\n vpxord %%zmm26,%%zmm26,%%zmm26\n vpxord %%zmm27,%%zmm27,%%zmm27\n"
+        "vpxord %%zmm28,%%zmm28,%%zmm28\n vpxord %%zmm29,%%zmm29,%%zmm29\n vpxord %%zmm30,%%zmm30,%%zmm30\n vpxord %%zmm31,%%zmm31,%%zmm31\n"
+        ::: "xmm0", "xmm1", "xmm2", "xmm3", "xmm4", "xmm5", "xmm6", "xmm7", "xmm8", "xmm9", "xmm10", "xmm11", "xmm12", "xmm13", "xmm14", "xmm15",
+            "xmm16", "xmm17", "xmm18", "xmm19", "xmm20", "xmm21", "xmm22", "xmm23", "xmm24", "xmm25", "xmm26", "xmm27", "xmm28", "xmm29", "xmm30", "xmm31");
+#elif defined(__AVX__)
+    __asm__ volatile("vzeroall" ::: "xmm0", "xmm1", "xmm2", "xmm3", "xmm4", "xmm5", "xmm6", "xmm7", "xmm8", "xmm9", "xmm10", "xmm11", "xmm12", "xmm13", "xmm14", "xmm15");
+#elif defined(__SSE2__)
+    __asm__ volatile("pxor %%xmm0,%%xmm0\n pxor %%xmm1,%%xmm1\n pxor %%xmm2,%%xmm2\n pxor %%xmm3,%%xmm3\n pxor %%xmm4,%%xmm4\n pxor %%xmm5,%%xmm5\n pxor %%xmm6,%%xmm6\n pxor %%xmm7,%%xmm7\n"
+        "pxor %%xmm8,%%xmm8\n pxor %%xmm9,%%xmm9\n pxor %%xmm10,%%xmm10\n pxor %%xmm11,%%xmm11\n pxor %%xmm12,%%xmm12\n pxor %%xmm13,%%xmm13\n pxor %%xmm14,%%xmm14\n pxor %%xmm15,%%xmm15\n"
+        ::: "xmm0", "xmm1", "xmm2", "xmm3", "xmm4", "xmm5", "xmm6", "xmm7", "xmm8", "xmm9", "xmm10", "xmm11", "xmm12", "xmm13", "xmm14", "xmm15");
+#endif
 }
 static volatile int g_in_run = 0;
 
